@@ -13,11 +13,11 @@ from .core import Result, Violation, HarnessError, EventLog, bump, rng_for, sha_
 PROP = 'C20'
 TIMEOUT = 1800
 BATCHES = {
-    'quick': [('P', 600), ('A', 110), ('B', 110), ('S', 150)],
-    'thorough': [('P', 12000), ('A', 2500), ('B', 2500), ('S', 3500)],
+    'quick': [('P', 600), ('A', 110), ('B', 110), ('S', 150), ('L', 60)],
+    'thorough': [('P', 12000), ('A', 2500), ('B', 2500), ('S', 3500), ('L', 2000)],
 }
-CHUNK = {'P': 6, 'A': 3, 'B': 3, 'S': 3}
-COST = {'P': 1, 'A': 3, 'B': 3, 'S': 3}
+CHUNK = {'P': 6, 'A': 3, 'B': 3, 'S': 3, 'L': 20}
+COST = {'P': 1, 'A': 3, 'B': 3, 'S': 3, 'L': 0.2}
 RULE = ('scenario = (object kind, definition (JSON), pools of amplitude vectors / point sets / load factors, history of '
         '5..40 client operations drawn from the public evaluation calls plus set-thread-count, plot and save->load). Every '
         'operation outcome (value or "raises") is compared with the outcome of the same operation executed alone on a '
@@ -186,6 +186,15 @@ def generate(seed, batch):
             scen['defn']['nx'] |= 1
             scen['defn']['nt'] |= 1
         scen['ops'] = gen_ops(rng, SHELL_OPS, nmax=18, heavy=('plot', 'static_nl', 'save_load'))
+    elif batch == 'L':
+        # the laminate constructor itself: repeated calls in one process, short (uniform plyt/laminaprop) and long
+        # (per-ply lists) argument forms, different laminates interleaved
+        scen['kind'] = 'laminate'
+        mats = [LAMPROP, (123.55e3, 8.708e3, 0.319, 5.695e3, 5.695e3, 5.695e3), (70e9, 70e9, 0.3, 26.9e9, 26.9e9, 26.9e9)]
+        scen['defn'] = {'lams': [{'stack': [rng.choice([0, 90, 45, -45, 30, -30, 60]) for _ in range(rng.randint(1, 8))],
+                                  'plyt': rng.choice([1.25e-4, 2e-4, 0.125, 0.5e-3]), 'mat': rng.randrange(3),
+                                  'offset': rng.choice([0.0, 0.0, 1e-4])} for _ in range(3)], 'mats': [list(m) for m in mats]}
+        scen['ops'] = [{'op': rng.choice(['rs_short', 'rs_short', 'rs_long']), 'li': rng.randrange(3)} for _ in range(rng.randint(3, 12))]
     else:
         raise ValueError(batch)
     return scen
@@ -210,6 +219,8 @@ def shrink_candidates(scen):
             del c['ops'][i]
             yield c
     d = scen['defn']
+    if scen['kind'] == 'laminate':
+        return
     if scen['kind'] == 'panel':
         for key, val in (('offset', 0.0), ('per_ply', False), ('Nxx_cte', None), ('Nyy', None), ('Nxy', None)):
             if d.get(key) != val:
@@ -502,7 +513,8 @@ class Env(object):
         """laminate table per integration point, (nx, ny, 6, 6), a smooth perturbation of one ABD matrix"""
         np = self.np
         import compmech.composite.laminate as laminate
-        lam = laminate.read_stack(list(d['stack']), plyt=d['plyt'], laminaprop=LAMPROP, offset=d['offset'])
+        lam = laminate.read_stack(list(d['stack']), plyts=[d['plyt']] * len(d['stack']),
+                                  laminaprops=[LAMPROP] * len(d['stack']), offset=d['offset'])
         F = np.array(lam.ABD, dtype=float)
         nx, ny = d['nx'], d['ny']
         fac = 1.0 + 0.1 * np.add.outer(np.linspace(0, 1, nx), np.linspace(0, 1, ny))
@@ -1019,9 +1031,98 @@ def save_load(kind, obj):
     return obj
 
 
+def execute_laminate(scen):
+    """world L: every read_stack call must give what the per-ply-list form gives for the same laminate, whatever
+    was built before it in this process, and must not touch the caller's lists."""
+    import numpy as np
+    import compmech.composite.laminate as laminate
+    res = Result.new(PROP, scen.get('seed'))
+    res['components'] = COMPONENTS
+    log = EventLog()
+    d = scen['defn']
+    sigs = set()
+    prev = []
+
+    def global_state():
+        # process-global mutable state of the composite modules: default arguments and module-level containers
+        import compmech.composite.lamina as lamina
+        import compmech.composite.matlamina as matlamina
+        out = []
+        for mod in (laminate, lamina, matlamina):
+            for name, v in sorted(vars(mod).items()):
+                f = getattr(v, '__func__', v)
+                if hasattr(f, '__defaults__') and getattr(f, '__module__', None) == mod.__name__:
+                    out.append((mod.__name__, name, repr(f.__defaults__), repr(getattr(f, '__kwdefaults__', None))))
+                elif isinstance(v, (list, dict, set)) and not name.startswith('__'):
+                    out.append((mod.__name__, name, len(v)))
+        return out
+    try:
+        seen = {}
+        for idx, op in enumerate(scen['ops']):
+            g0 = global_state()
+            L = d['lams'][op['li']]
+            prop = tuple(d['mats'][L['mat']])
+            stack = list(L['stack'])
+            n = len(stack)
+            plyts = [L['plyt']] * n
+            props = [prop] * n
+            ref = laminate.read_stack(list(stack), plyts=list(plyts), laminaprops=list(props), offset=L['offset'])
+            if op['op'] == 'rs_short':
+                lam = laminate.read_stack(stack, plyt=L['plyt'], laminaprop=prop, offset=L['offset'])
+            else:
+                lam = laminate.read_stack(stack, plyts=plyts, laminaprops=props, offset=L['offset'])
+            if global_state() != g0:
+                # checked before any value comparison so that the verdict does not depend on what earlier scenarios
+                # did to this interpreter
+                raise Violation('H6-global-state', {'kind': 'laminate', 'op': op['op'], 'index': idx,
+                                                    'why': 'the call changed process-global state of the composite modules '
+                                                           '(mutable default arguments / module-level containers)'}, step=idx)
+            if stack != list(L['stack']) or plyts != [L['plyt']] * n or props != [prop] * n:
+                raise Violation('H3-inputs', {'kind': 'laminate', 'op': op['op'], 'index': idx, 'why': 'read_stack modified the lists passed in'})
+            got = (np.array(lam.ABD, dtype=float), float(lam.t), len(lam.plies))
+            want = (np.array(ref.ABD, dtype=float), float(ref.t), len(ref.plies))
+            res['steps'] += 1
+            log.add(idx, op['op'], op['li'], sha_bytes(got[0].tobytes()))
+            if got[0].tobytes() != want[0].tobytes() or got[1] != want[1] or got[2] != want[2]:
+                raise Violation('H1-same-outcome', {'kind': 'laminate', 'op': '%s/l%d' % (op['op'], op['li']), 'index': idx,
+                                                    'history': prev[-6:], 'plies': [got[2], want[2]], 't': [got[1], want[1]],
+                                                    'why': 'read_stack result depends on the laminates built before it'}, step=idx)
+            key = (op['op'], op['li'])
+            if key in seen and seen[key] != sha_bytes(got[0].tobytes()):
+                raise Violation('H2-repeat', {'kind': 'laminate', 'op': str(key), 'index': idx}, step=idx)
+            seen[key] = sha_bytes(got[0].tobytes())
+            for po in set(prev):
+                sigs.add('laminate:%s>%s' % (po, op['op']))
+            prev.append('%s%d' % (op['op'], op['li']))
+            bump(res['probes'], 'H1_checked')
+        res['nontrivial'] = len(scen['ops']) >= 3
+    except Violation as v:
+        settle(res, v, None)
+    res['signature'] = sorted(sigs)
+    res['digest'] = log.digest()
+    return res
+
+
+def execute_laminate_isolated(scen):
+    """World L looks at process-global state (mutable default arguments), so every scenario runs in an interpreter of
+    its own: the outcome is then a function of the scenario alone, whatever this worker executed before."""
+    import json
+    import subprocess
+    import sys
+    r = subprocess.run([sys.executable, '-m', 'sim.lamchild'], input=json.dumps(scen).encode(), capture_output=True, timeout=300)
+    if r.returncode != 0:
+        raise HarnessError('laminate child failed: ' + r.stderr.decode()[-500:])
+    out = json.loads(r.stdout.decode().strip().splitlines()[-1])
+    res = Result.new(PROP, scen.get('seed'))
+    res.update(out)
+    return res
+
+
 def execute(scen):
     import os
     import numpy as np
+    if scen.get('kind') == 'laminate':
+        return execute_laminate_isolated(scen)
     res = Result.new(PROP, scen.get('seed'))
     res['components'] = COMPONENTS
     log = EventLog()
